@@ -33,6 +33,7 @@ type c10case struct {
 	Muts   [][]int `json:"muts"` // [0, n] truncate to n bytes; [1, pos, val] substitute
 	Full   bool    `json:"full"` // return the bytes read
 	Reseek bool    `json:"reseek"`
+	Raw    [][]int `json:"raw"` // bgzf: members framed by hand, [payload length, seed] each (lengths up to 65536, which bgzf.Writer never produces), then the EOF marker
 }
 
 type c10obs struct {
@@ -47,6 +48,17 @@ type c10obs struct {
 }
 
 func c10buildBgzf(c c10case) ([]byte, []byte) {
+	if c.Raw != nil {
+		f, err := c02Build(c.Raw, nil, true)
+		if err != nil {
+			panic(err)
+		}
+		var orig []byte
+		for _, m := range c.Raw {
+			orig = append(orig, c02Data(m[0], m[1])...)
+		}
+		return f.raw, orig
+	}
 	var buf bytes.Buffer
 	w, err := bgzf.NewWriterLevel(&buf, c.Level, c.Wc)
 	if err != nil {
@@ -180,7 +192,7 @@ func c10readBgzf(b, orig []byte, rd int, full, reseek bool) (o c10obs) {
 		}
 	}()
 	o.EOF = c10hasEOF(b)
-	r, err := bgzf.NewReader(bytes.NewReader(b), rd)
+	r, err := bgzf.NewReader(sourceFor(b), rd)
 	var got []byte
 	if err == nil {
 		defer r.Close()
